@@ -18,6 +18,7 @@ func init() {
 
 func c29(r *core.Run) {
 	c29InArray(r)
+	psliceCopyOnWrite(r, "C29.W3")
 	w := r.W
 	fn := w.Func("pkg/hive2", "(*Service).onFindNode")
 	rpl := w.Func("pkg/hive2", "randPeersLimit")
